@@ -1,3 +1,7 @@
+-- all or nothing: an upgrade that is interrupted half-way must leave the
+-- version-1 database as it was, so that the next start simply upgrades again
+BEGIN;
+
 CREATE TABLE `client_versions`
 (
  `app_id` VARCHAR,
@@ -13,3 +17,5 @@ CREATE INDEX `client_versions_appid_time_idx` on `client_versions` (`app_id`, `c
 
 DELETE FROM `version`;
 INSERT INTO `version` (`version`) VALUES (2);
+
+COMMIT;
